@@ -756,6 +756,17 @@ impl FixtureDatabase {
                     }
                 }
 
+                // A call that is already closed at the end of its own line cannot contain a
+                // cursor on a later line: parentheses opened further down (e.g. the `def f(`
+                // being typed) belong to something else.
+                if i < cursor_idx && depth <= 0 {
+                    if i == 0 || i <= scan_limit {
+                        break;
+                    }
+                    i -= 1;
+                    continue;
+                }
+
                 // Continue counting on subsequent lines up to cursor.
                 // Skip when i == cursor_idx since (i + 1)..=cursor_idx would panic.
                 if i < cursor_idx {
